@@ -1,4 +1,4 @@
-CONSTANTS Deps = {"d1", "d2"}  TSvcs = {"s1"}  RSvcs = {"s1"}  NPorts = 2  Vals = {"1", "b"}
+CONSTANTS Deps = {"d1", "d2"}  TSvcs = {"s1"}  RSvcs = {}  NPorts = 2  Vals = {"1", "b"}
           FLens = {3}  FDistinct = TRUE  FChains = {"1", "2"}  FPreds = 2  FRestPreds = 0
           CLens = {}  CDistinct = TRUE  CChains = {"0"}  NJobs = 1  CapVals = {1}
           UseQueries = FALSE
